@@ -217,6 +217,20 @@ def run(ctx):
         k = len(lst) if ctx.thorough and len(lst) <= 400 else 6
         pick = lst if k >= len(lst) else [lst[rng.below(len(lst))] for _ in range(k)]
         cases.extend(dict.fromkeys(ex + pick))
+    # numbered list items with every pair of separator characters (sections and lots), followed by what makes the list
+    # pattern fail late: another Twp/Rge, plain text, nothing
+    seps = ['-', '.', ',', ' ', '–', ';', '&', ':']
+    item_units = []
+    for a in seps:
+        for b in seps:
+            item_units += [f'1{a}{b}2, ', f'3{a}{b}', f', Sec{a}{b}4', f'{a} 5{b}']
+    item_units += ['Sec. 1, ', 'Sec 1, ', 'Section 1 ', '1 and 2, ', '1 thru. 2; ', 'Lot 1, ', 'L1,', 'Lot. 1 & ', '1 to 2 ', '§ 1, ']
+    for u in dict.fromkeys(item_units):
+        for pfx, sfxs in (('T154N-R97W Sec ', [' T155N-R97W Sec 1: NE/4', ': NE/4', ' x']), ('Sections ', [' T154N-R97W: NE/4', ' x']),
+                          ('T154N-R97W Sec 14: Lots ', [' x', ' NE/4'])):
+            for sfx in (sfxs if ctx.thorough else sfxs[:2]):
+                if not known_family(pfx, u):
+                    cases.append((pfx, u, sfx))
     rep.extra['pumping_families'] = len(cases)
     rep.extra['units'] = len(units)
     with mp.Pool(14) as pool:
